@@ -13,7 +13,7 @@
    C11_prox_is_THE_minimiser turns prox_at into "strict minimiser with quadratic growth", so every
    prox_at / proj_at statement below is a statement about THE minimiser of 1/2||x-y||^2 + alpha g(x). *)
 From Coq Require Import Reals List Bool ZArith.
-From SV Require Import model.Prox proofs.ProxBase proofs.ProxThresh proofs.ProxComb proofs.ProxL1 proofs.ProxPsd proofs.ProxMain.
+From SV Require Import model.Prox proofs.ProxBase proofs.ProxThresh proofs.ProxComb proofs.ProxL1 proofs.ProxPsd proofs.ProxMain proofs.ProxPsd2.
 Import ListNotations.
 Local Open Scope R_scope.
 
@@ -342,7 +342,8 @@ Proof. exact (@unitary_hypotheses_sat). Qed.
 Print Assumptions C11_unitary_hypotheses_satisfiable.
 
 (* ------------------------------------------------------------------ PSD projection over the eigh oracle *)
-(* FULL statement (not proved here): for an n x n complex matrix M, if eigh((M+M^H)/2) = (w, V) with V unitary and
+(* FULL statement (proved further down: C11_psd_proj_is_projection and its real / complex explicit forms;
+   "not proved here" refers to this older theorem only): for an n x n complex matrix M, if eigh((M+M^H)/2) = (w, V) with V unitary and
    (M+M^H)/2 = V diag(w) V^H, then P = psd_proj n w V is Hermitian, x^H P x >= 0 for all x, and
    Re tr((M-P)^H (Z-P)) <= 0 for every Hermitian Z with x^H Z x >= 0 for all x.
    PROVED (partial): the same conclusion from the spectral consequences of the oracle specification
@@ -381,3 +382,190 @@ Print Assumptions C11_psd_hypotheses_satisfiable.
 Example C11_l1_certificate_satisfiable : cert (El:=RRe) 2 (fun i => nth i [3; -1] 0) 1 = 2.
 Proof. exact l1_certificate_sat. Qed.
 Print Assumptions C11_l1_certificate_satisfiable.
+
+(* ------------------------------------------------------------------ PSD projection: the FULL theorem *)
+(* Vocabulary (proofs/ProxPsd2.v):
+     StarLaws LW     the element type as a commutative *-ring with real part sre, unit s1, embedding sinj of R:
+                     ring_theory on e0/s1/eadd/emul/esub, econj an involutive ring morphism, sre additive,
+                     sre(conj a * a) >= 0, escale t a = sinj t * a, ein LW a b = sre(conj a * b).
+                     Instances RealStar (on RRe) and CplxStar (on RCx), both Definitions built from the model's own operations.
+     esumn n f       sum_{i<n} f i in El;   Vf v i j = entry j of row i of the list-of-rows v;  wf wl k = entry k of wl
+     orthcols SL n V := forall k l < n, sum_i conj(V i k) * V i l = (if k = l then 1 else 0)                  (V^H V = I)
+     PsdCone SL n Z  := (forall i j < n, Z(j*n+i) = conj Z(i*n+j)) /\ forall z, 0 <= sre (sum_i sum_j conj(z i) * Z(i*n+j) * z j)
+                     (Z = flat row-major n x n matrix: Hermitian and z^H Z z >= 0)
+   Statement: for the eigh oracle's answer (wl, v) on the Hermitian part of ANY n x n matrix X (any n, X not assumed
+   Hermitian) — V^H V = I and (X + X^H)/2 = (V * w) V^H entrywise — the list psd_proj n wl v has n*n entries and is the
+   projection of X onto PsdCone in the real Frobenius inner product dotn LW (n*n) = Re tr(A^H B):
+   it lies in the cone and Re<X - P, Z - P>_F <= 0 for every Z in the cone. *)
+Theorem C11_psd_proj_is_projection :
+  forall (El : Elem RR) (LW : ElemLaws El) (SL : StarLaws LW) n (X : list El) (wl : list R) (v : list (list El)),
+    length wl = n -> length v = n -> (forall r, In r v -> length r = n) ->
+    orthcols SL n (Vf v) ->
+    (forall i k, (i < n)%nat -> (k < n)%nat ->
+       @edivr RR El (@eadd RR El (fn X (i * n + k)%nat) (@econj RR El (fn X (k * n + i)%nat))) 2 =
+       esumn n (fun j => @emul RR El (@escale RR El (wf wl j) (Vf v i j)) (@econj RR El (Vf v k j)))) ->
+    length (@psd_proj RR El n wl v) = (n * n)%nat /\
+    proj_at LW (n * n) (PsdCone SL n) (fn X) (fn (@psd_proj RR El n wl v)).
+Proof. exact (@psd_proj_is_projection). Qed.
+Print Assumptions C11_psd_proj_is_projection.
+
+(* ... hence THE Frobenius-nearest point of the cone, with quadratic growth (so unique) *)
+Theorem C11_psd_proj_is_nearest :
+  forall (El : Elem RR) (LW : ElemLaws El) (SL : StarLaws LW) n (X : list El) (wl : list R) (v : list (list El)),
+    length wl = n -> length v = n -> (forall r, In r v -> length r = n) ->
+    orthcols SL n (Vf v) ->
+    (forall i k, (i < n)%nat -> (k < n)%nat ->
+       @edivr RR El (@eadd RR El (fn X (i * n + k)%nat) (@econj RR El (fn X (k * n + i)%nat))) 2 =
+       esumn n (fun j => @emul RR El (@escale RR El (wf wl j) (Vf v i j)) (@econj RR El (Vf v k j)))) ->
+    let P := fn (@psd_proj RR El n wl v) in
+    forall Z, PsdCone SL n Z ->
+      dotn LW (n * n) (fsub P (fn X)) (fsub P (fn X)) + dotn LW (n * n) (fsub Z P) (fsub Z P)
+      <= dotn LW (n * n) (fsub Z (fn X)) (fsub Z (fn X)).
+Proof. exact (@psd_proj_nearest). Qed.
+Print Assumptions C11_psd_proj_is_nearest.
+
+Theorem C11_psd_proj_nearest_unique :
+  forall (El : Elem RR) (LW : ElemLaws El) (SL : StarLaws LW) n (X : list El) (wl : list R) (v : list (list El)),
+    length wl = n -> length v = n -> (forall r, In r v -> length r = n) ->
+    orthcols SL n (Vf v) ->
+    (forall i k, (i < n)%nat -> (k < n)%nat ->
+       @edivr RR El (@eadd RR El (fn X (i * n + k)%nat) (@econj RR El (fn X (k * n + i)%nat))) 2 =
+       esumn n (fun j => @emul RR El (@escale RR El (wf wl j) (Vf v i j)) (@econj RR El (Vf v k j)))) ->
+    let P := fn (@psd_proj RR El n wl v) in
+    forall Z, PsdCone SL n Z ->
+      dotn LW (n * n) (fsub Z (fn X)) (fsub Z (fn X)) <= dotn LW (n * n) (fsub P (fn X)) (fsub P (fn X)) ->
+      forall t, (t < n * n)%nat -> Z t = P t.
+Proof. exact (@psd_proj_unique). Qed.
+Print Assumptions C11_psd_proj_nearest_unique.
+
+(* the matrix-level core, no lists: X, Hm, P, V any n x n matrices (functions), w real:
+   V^H V = I, Hm = V diag(w) V^H = (X + X^H)/2, P = V diag(max(w,0)) V^H  ==>  P is Hermitian PSD and
+   Re tr((X-P)^H (Z-P)) <= 0 for every Hermitian PSD Z *)
+Theorem C11_psd_matrix_variational_inequality :
+  forall (El : Elem RR) (LW : ElemLaws El) (SL : StarLaws LW) n (X Hm P V : nat -> nat -> El) (w : nat -> R),
+    orthcols SL n V ->
+    (forall i j, (i < n)%nat -> (j < n)%nat -> Hm i j = vdv SL n w V i j) ->
+    (forall i j, (i < n)%nat -> (j < n)%nat ->
+       Hm i j = @emul RR El (sinj SL (/ 2)) (@eadd RR El (X i j) (@econj RR El (X j i)))) ->
+    (forall i j, (i < n)%nat -> (j < n)%nat -> P i j = vdv SL n (wplus w) V i j) ->
+    forall Z, PSD SL n Z -> sre SL (frobC n (msub X P) (msub Z P)) <= 0.
+Proof. exact (@psd_vi). Qed.
+Print Assumptions C11_psd_matrix_variational_inequality.
+
+Theorem C11_psd_matrix_output_in_cone :
+  forall (El : Elem RR) (LW : ElemLaws El) (SL : StarLaws LW) n (P V : nat -> nat -> El) (w : nat -> R),
+    (forall i j, (i < n)%nat -> (j < n)%nat -> P i j = vdv SL n (wplus w) V i j) -> PSD SL n P.
+Proof. exact (@P_psd). Qed.
+Print Assumptions C11_psd_matrix_output_in_cone.
+
+(* REAL SYMMETRIC CASE, everything written out over R (sumn = finite sum, flat index i*n+j):
+   V^T V = I, (X + X^T)/2 = V diag(w) V^T  ==>  P = psd_proj n wl v has n*n entries, is symmetric, z^T P z >= 0,
+   and for every symmetric Z with z^T Z z >= 0:  <X-P, Z-P>_F <= 0  and  ||P-X||_F^2 + ||Z-P||_F^2 <= ||Z-X||_F^2 *)
+Theorem C11_psd_proj_real_symmetric :
+  forall n (X wl : list R) (v : list (list R)),
+  length wl = n -> length v = n -> (forall r, In r v -> length r = n) ->
+  let V := fun i j => nth j (nth i v []) 0 in
+  let w := fun k => nth k wl 0 in
+  let x := fun t => nth t X 0 in
+  (forall k l, (k < n)%nat -> (l < n)%nat -> sumn n (fun i => V i k * V i l) = if Nat.eqb k l then 1 else 0) ->
+  (forall i k, (i < n)%nat -> (k < n)%nat ->
+     (x (i * n + k)%nat + x (k * n + i)%nat) / 2 = sumn n (fun j => w j * V i j * V k j)) ->
+  let p := fun t => nth t (psd_proj (El:=RRe) n wl v) 0 in
+  length (psd_proj (El:=RRe) n wl v) = (n * n)%nat /\
+  (forall i j, (i < n)%nat -> (j < n)%nat -> p (j * n + i)%nat = p (i * n + j)%nat) /\
+  (forall z : nat -> R, 0 <= sumn n (fun i => sumn n (fun j => z i * p (i * n + j)%nat * z j))) /\
+  forall Z : nat -> R,
+    (forall i j, (i < n)%nat -> (j < n)%nat -> Z (j * n + i)%nat = Z (i * n + j)%nat) ->
+    (forall z : nat -> R, 0 <= sumn n (fun i => sumn n (fun j => z i * Z (i * n + j)%nat * z j))) ->
+    sumn (n * n) (fun t => (x t - p t) * (Z t - p t)) <= 0 /\
+    sumn (n * n) (fun t => (p t - x t) * (p t - x t)) + sumn (n * n) (fun t => (Z t - p t) * (Z t - p t))
+    <= sumn (n * n) (fun t => (Z t - x t) * (Z t - x t)).
+Proof. exact psd_proj_real. Qed.
+Print Assumptions C11_psd_proj_real_symmetric.
+
+(* COMPLEX HERMITIAN CASE, complex numbers as pairs (re, im); cadd/cmul/cconj/cscale/cdivr/csumn are the
+   textbook pair operations (proofs/ProxPsd2.v), cdist2 a b = |a-b|^2 *)
+Theorem C11_psd_proj_complex_hermitian :
+  forall n (X : list (R * R)) (wl : list R) (v : list (list (R * R))),
+  length wl = n -> length v = n -> (forall r, In r v -> length r = n) ->
+  let V := fun i j => nth j (nth i v []) (0, 0) in
+  let w := fun k => nth k wl 0 in
+  let x := fun t => nth t X (0, 0) in
+  (forall k l, (k < n)%nat -> (l < n)%nat ->
+     csumn n (fun i => cmul (cconj (V i k)) (V i l)) = if Nat.eqb k l then (1, 0) else (0, 0)) ->
+  (forall i k, (i < n)%nat -> (k < n)%nat ->
+     cdivr (cadd (x (i * n + k)%nat) (cconj (x (k * n + i)%nat))) 2 =
+     csumn n (fun j => cmul (cscale (w j) (V i j)) (cconj (V k j)))) ->
+  let p := fun t => nth t (psd_proj (El:=RCx) n wl v) (0, 0) in
+  length (psd_proj (El:=RCx) n wl v) = (n * n)%nat /\
+  (forall i j, (i < n)%nat -> (j < n)%nat -> p (j * n + i)%nat = cconj (p (i * n + j)%nat)) /\
+  (forall z : nat -> R * R,
+     0 <= fst (csumn n (fun i => csumn n (fun j => cmul (cmul (cconj (z i)) (p (i * n + j)%nat)) (z j))))) /\
+  forall Z : nat -> R * R,
+    (forall i j, (i < n)%nat -> (j < n)%nat -> Z (j * n + i)%nat = cconj (Z (i * n + j)%nat)) ->
+    (forall z : nat -> R * R,
+       0 <= fst (csumn n (fun i => csumn n (fun j => cmul (cmul (cconj (z i)) (Z (i * n + j)%nat)) (z j))))) ->
+    sumn (n * n) (fun t => (fst (x t) - fst (p t)) * (fst (Z t) - fst (p t)) +
+                           (snd (x t) - snd (p t)) * (snd (Z t) - snd (p t))) <= 0 /\
+    sumn (n * n) (fun t => cdist2 (p t) (x t)) + sumn (n * n) (fun t => cdist2 (Z t) (p t))
+    <= sumn (n * n) (fun t => cdist2 (Z t) (x t)).
+Proof. exact psd_proj_complex. Qed.
+Print Assumptions C11_psd_proj_complex_hermitian.
+
+(* the oracle hypotheses are satisfiable for n = 2 with a NON-symmetric input and a negative eigenvalue:
+   X = [[23/25, 61/25], [11/25, 2/25]], V = [[3/5, 4/5], [-4/5, 3/5]], w = (-1, 2) *)
+Example C11_psd_real_hypotheses_satisfiable :
+  let n := 2%nat in
+  let X := [23/25; 61/25; 11/25; 2/25] in
+  let wl := [-1; 2] in
+  let v := [[3/5; 4/5]; [-4/5; 3/5]] in
+  let V := fun i j => nth j (nth i v []) 0 in
+  let w := fun k => nth k wl 0 in
+  let x := fun t => nth t X 0 in
+  length wl = n /\ length v = n /\ (forall r, In r v -> length r = n) /\
+  (forall k l, (k < n)%nat -> (l < n)%nat -> sumn n (fun i => V i k * V i l) = if Nat.eqb k l then 1 else 0) /\
+  (forall i k, (i < n)%nat -> (k < n)%nat ->
+     (x (i * n + k)%nat + x (k * n + i)%nat) / 2 = sumn n (fun j => w j * V i j * V k j)).
+Proof. exact psd_real_hypotheses_sat. Qed.
+Print Assumptions C11_psd_real_hypotheses_satisfiable.
+
+(* complex: X = [[23/25+i, 1+36i/25], [-1-36i/25, 2/25]] (not Hermitian), V = [[3/5, 4i/5], [4i/5, 3/5]], w = (-1, 2) *)
+Example C11_psd_complex_hypotheses_satisfiable :
+  let n := 2%nat in
+  let X := [(23/25, 1); (1, 36/25); (-1, -36/25); (2/25, 0)] in
+  let wl := [-1; 2] in
+  let v := [[(3/5, 0); (0, 4/5)]; [(0, 4/5); (3/5, 0)]] in
+  let V := fun i j => nth j (nth i v []) (0, 0) in
+  let w := fun k => nth k wl 0 in
+  let x := fun t => nth t X (0, 0) in
+  length wl = n /\ length v = n /\ (forall r, In r v -> length r = n) /\
+  (forall k l, (k < n)%nat -> (l < n)%nat ->
+     csumn n (fun i => cmul (cconj (V i k)) (V i l)) = if Nat.eqb k l then (1, 0) else (0, 0)) /\
+  (forall i k, (i < n)%nat -> (k < n)%nat ->
+     cdivr (cadd (x (i * n + k)%nat) (cconj (x (k * n + i)%nat))) 2 =
+     csumn n (fun j => cmul (cscale (w j) (V i j)) (cconj (V k j)))).
+Proof. exact psd_complex_hypotheses_sat. Qed.
+Print Assumptions C11_psd_complex_hypotheses_satisfiable.
+
+(* the same on the model's own terms: the oracle specification is stated against the model's herm_part n X
+   (what run/RunC11.v:eigh_spec_ok tests on every recorded eigh answer), the conclusion is about the PsdProj node of apply
+   (n = number of rows of v; alpha is ignored as in prox.py); output length = input length *)
+Theorem C11_psdproj_node_is_projection :
+  forall (El : Elem RR) (LW : ElemLaws El) (SL : StarLaws LW) s (wl : list R) (v : list (list El)) (alpha : sv R) (X : list El),
+    let n := length v in
+    length X = (n * n)%nat -> length wl = n -> (forall r, In r v -> length r = n) ->
+    orthcols SL n (Vf v) ->
+    (forall i k, (i < n)%nat -> (k < n)%nat ->
+       nth k (nth i (@herm_part RR El n X) []) e0 =
+       esumn n (fun j => @emul RR El (@escale RR El (wf wl j) (Vf v i j)) (@econj RR El (Vf v k j)))) ->
+    exists p, @apply RR El (@PsdProj RR El s wl v) alpha X = Some p /\ length p = length X /\
+      proj_at LW (n * n) (PsdCone SL n) (fn X) (fn p).
+Proof. exact (@psdproj_node_is_projection). Qed.
+Print Assumptions C11_psdproj_node_is_projection.
+
+Theorem C11_herm_part_entry :
+  forall (El : Elem RR) n (X : list El) i k, length X = (n * n)%nat -> (i < n)%nat -> (k < n)%nat ->
+    nth k (nth i (@herm_part RR El n X) []) e0 =
+    @edivr RR El (@eadd RR El (fn X (i * n + k)%nat) (@econj RR El (fn X (k * n + i)%nat))) 2.
+Proof. exact (@herm_part_entry). Qed.
+Print Assumptions C11_herm_part_entry.
